@@ -5,6 +5,7 @@ import (
 	"fmt"
 	"runtime"
 	"sort"
+	"strings"
 	"sync"
 
 	"github.com/prometheus/prometheus/storage"
@@ -53,9 +54,42 @@ func (c12Prop) Gen(seed uint64, tier string, i int) Case {
 	}
 	c.Extra = map[string]any{"k": float64(k), "iters": float64(2 + r.Intn(3))}
 	if r.P(0.5) {
+		// texts nobody in this process has planned before, first met by all goroutines at once: state
+		// keyed by the query text (plan caches, memo tables) is filled under contention
+		tag := fmt.Sprintf("r%d-%d", seed, i)
+		for j, q := range c.Queries {
+			c.Queries[j] = freshText(q, tag)
+		}
+		c.Extra["solo_last"] = true
+	}
+	if r.P(0.5) {
 		c.Extra["perturb"] = float64(1 + r.Uint64()%1000000)
 	}
 	return c
+}
+
+// freshText adds a matcher that excludes nothing but makes the text of every selector of m0 unique.
+func freshText(q, tag string) string {
+	var b strings.Builder
+	for i := 0; i < len(q); i++ {
+		if strings.HasPrefix(q[i:], "m0") && (i == 0 || !isIdentChar(q[i-1])) && (i+2 == len(q) || !isIdentChar(q[i+2])) {
+			b.WriteString("m0")
+			i += 2
+			if i < len(q) && q[i] == '{' {
+				b.WriteString(`{nosuch!="` + tag + `",`)
+			} else {
+				b.WriteString(`{nosuch!="` + tag + `"}`)
+				i--
+			}
+			continue
+		}
+		b.WriteByte(q[i])
+	}
+	return b.String()
+}
+
+func isIdentChar(c byte) bool {
+	return c == '_' || c == ':' || c >= 'a' && c <= 'z' || c >= 'A' && c <= 'Z' || c >= '0' && c <= '9'
 }
 
 type span struct{ a, b int64 }
@@ -152,12 +186,17 @@ func (c12Prop) Check(c Case) Outcome {
 	body := func() {
 		old := setProcs(c.Engine.Procs)
 		defer setProcs(old)
-		for i, j := range jobs {
-			solo[i] = run(j)
+		soloLast, _ := c.Extra["solo_last"].(bool)
+		if !soloLast {
+			for i, j := range jobs {
+				solo[i] = run(j)
+			}
 		}
 		var wg sync.WaitGroup
 		spans := make([][]span, k)
 		diffs := make([]string, k)
+		results := make([][]Result, k)
+		which := make([][]int, k)
 		for g := 0; g < k; g++ {
 			wg.Add(1)
 			go func(g int) {
@@ -167,13 +206,25 @@ func (c12Prop) Check(c Case) Outcome {
 					t0 := nanotime()
 					got := run(jobs[ji])
 					spans[g] = append(spans[g], span{t0, nanotime()})
-					if d := Compare(got, solo[ji]); d != nil && diffs[g] == "" {
-						diffs[g] = fmt.Sprintf("goroutine %d, query `%s` %v: concurrent result differs from its solo result: %s\n  concurrent: %s\n  solo:       %s", g, jobs[ji].q, jobs[ji].w, d.Detail, got, solo[ji])
-					}
+					results[g] = append(results[g], got)
+					which[g] = append(which[g], ji)
 				}
 			}(g)
 		}
 		wg.Wait()
+		if soloLast {
+			for i, j := range jobs {
+				solo[i] = run(j)
+			}
+		}
+		for g := range results {
+			for n, got := range results[g] {
+				ji := which[g][n]
+				if d := Compare(got, solo[ji]); d != nil && diffs[g] == "" {
+					diffs[g] = fmt.Sprintf("goroutine %d, query `%s` %v: concurrent result differs from its solo result: %s\n  concurrent: %s\n  solo:       %s", g, jobs[ji].q, jobs[ji].w, d.Detail, got, solo[ji])
+				}
+			}
+		}
 		var all []span
 		for _, s := range spans {
 			all = append(all, s...)
